@@ -206,25 +206,25 @@ ADDED = {
     "C04": "Also: the same (endpoint, ID) under another token and towards a second server endpoint of the process; three long prefixes (duplicate inside the lifetime, re-use after the expiry, the instant old timers are due) behind which the search continues. Request message IDs 0/1/2 with the server's counter wrapping onto them; an acknowledged separate response whose own ID equals the request's; every ACK names a received request. The request and seven copies of it. A separate response sent non-confirmably under the request's message ID.",
     "C13": "Also: process death between two operations (a lifetime without any file-system effect) as an operation of the histories. Histories across the numbers where the Partial IV grows by a byte or ends in zero bytes. Operations run inside a running loop; executor jobs are deferred and die with the process. Responses at the end of the number space.",
     "C03": "Also: a library-generated Block2 follow-up as the CON under test, responses to an older request, the tuning handed over as a "
-           "TransportTuning subclass, a CON that had to wait behind two requests answered in turn, and a follower held back behind it and withdrawn. A CON without a tuning of its own after another message's default tuning was edited.",
+           "TransportTuning subclass, a CON that had to wait behind two requests answered in turn, and a follower held back behind it and withdrawn. A CON without a tuning of its own after another message's default tuning was edited. A CON created with the deprecated mtype keyword next to its tuning; a held-back CON that never gets onto the wire.",
     "C05": "Also: a conforming server that states its own larger SZX in its 2.31s; later blocks refused (4.08 / 5.03) or answered without Block2; "
            "requests carry Content-Format / Accept / query and Block2 follow-ups must be the same request; a stateless server (2.04, M=0 on every block); large responses to a client limited to smaller blocks. Managed requests that carry the application's own Block2 option. Transfers whose block numbers need the third option byte.",
     "C06": "Also: empty and double-size non-final continuations; transfers that differ only in Request-Tag or Accept; cache / spool running empty and being refilled. Combined Block1 + Block2 transfers. A representation that is sometimes empty; an entry replaced shortly before a sweep. Requests asking for the reserved size exponent 7.",
     "C09": "Also: observable resources (declined / accepted registration) x every outcome, No-Response x outcomes, and neighbours while the "
-           "acknowledgement of a separate response is lost for good. Messages that pass for a response but cannot be serialised; the failing request's own final response among neighbours. Requests under message ID 0 (the acknowledgement names the request); sequences of requests at a context without a site. Non-ASCII diagnostics; a discovery filter that matches nothing.",
+           "acknowledgement of a separate response is lost for good. Messages that pass for a response but cannot be serialised; the failing request's own final response among neighbours. Requests under message ID 0 (the acknowledgement names the request); sequences of requests at a context without a site. Non-ASCII diagnostics; a discovery filter that matches nothing. A transport error for one peer while another peer's requests are under way; resource classes derived from one another.",
     "C10": "Also: the transport tuning's reliability preference (class and instance) x multicast destinations; the peer's message carrying "
            "the node's own just-acknowledged message ID; a ping received on a multicast address gets its Reset; a second copy of a CON request around EMPTY_ACK_DELAY (acknowledged exactly once); a multicast request given up. Exchanges with the peer's other port while a CON to its first port is open; a transport error before a duplicate. The node's own request on the token of the peer's request still in its handler; the node as a forward proxy. A request whose answer cannot be serialised is still acknowledged exactly once.",
     "C11": "Also: every rejected forgery is followed by the genuine message on the same recipient; foreign contexts include absent vs empty ID "
            "context and another salt, for requests and responses; all 12 registered AEAD algorithms in both tiers; no nonce re-used by the Echo challenge "
            "after a loss of replay state; response binding across a process death; the outer code depends on Observe alone. The server-side choice of the context from a credentials map (four ID contexts in every order). The real client transport against the real site wrapper over the virtual network (Echo recovery, observation, swapped responses). Non-confirmable requests through the transports; contexts loaded from directories with every admissible ID length. No nonce is used twice through the transports; block-wise state of a protected exchange is not served outside the context.",
     "C12": "Also: state lost for real - a file-backed context accepts 1-3 requests, the process dies, after reload nothing is accepted before a fresh Echo exchange; "
-           "responses of the peer with its own Partial IV never move an initialised window. The last sequence number 2^40-1; recorded requests under a rewritten outer code. Sequence files that say nothing usable about what was received. Plain responses (no Partial IV of their own) in both window states.",
-    "C15": "Also: elective options in Ping / Release / Abort and a critical option behind an elective one; a displaced connection; CSMs without options. A peer CSM announcing a small Max-Message-Size. Empty messages carrying a token / option / payload. Frames of 65 kB - 1 MB cut inside their header; a peer that sends Release / Abort and stops reading.",
+           "responses of the peer with its own Partial IV never move an initialised window. The last sequence number 2^40-1; recorded requests under a rewritten outer code. Sequence files that say nothing usable about what was received. Plain responses (no Partial IV of their own) in both window states. One context directory opened again, waited for, and discarded while an instance holds it.",
+    "C15": "Also: elective options in Ping / Release / Abort and a critical option behind an elective one; a displaced connection; CSMs without options. A peer CSM announcing a small Max-Message-Size. Empty messages carrying a token / option / payload. Frames of 65 kB - 1 MB cut inside their header; a peer that sends Release / Abort and stops reading. Empty messages with a broken option area; 0xFF inside an option value of a large frame.",
     "C16": "Also: the destination (scheme, host, port) of every accepted authority; sub-delims, ':' and '@' standing unescaped in segments; composition with Uri-Host / Uri-Port options. The options of a CoAP URI do not depend on what the message carried before (set again, copy(uri=)). The same URI under another scheme as predecessor. Hosts with every upper-case letter behind a percent-escape.",
     "C17": "Also: every Uri-Path-Abbrev value routed like the spelled-out path over six .well-known trees (nested sites included); bodies arriving in Block1 blocks below nested sites. Resource objects that are false in a boolean context. One Site object mounted under several prefixes; listings for unicast requesters are not marked for suppression.",
     "C18": "Also: an observation whose first notification is block-wise, and consumers that subscribe only after the shutdown (errback and async iteration), a cancelled consumer task, "
            "CON notifications acknowledged late, a bystander server context, a bystander that is a client of the victim, requests submitted while the shutdown is under way, the application cancelling and shutting down in one step. A datagram of the peer becoming readable while the shutdown is under way. A request submitted in the very step that starts the shutdown; a handler whose clean-up outlasts the time-out. A datagram (request, response or acknowledgement) read in the very pass in which the shutdown begins.",
-    "C19": "Also: a request answered with an error leaves the served tree unchanged (no left-over spool files); If-None-Match combined with If-Match. Every spelling of the root after the tree has been emptied through the server; a replacement through the server between two fetches. Compatibility forms of dots and slashes in path components. The root given as '.' with the home directory elsewhere.",
+    "C19": "Also: a request answered with an error leaves the served tree unchanged (no left-over spool files); If-None-Match combined with If-Match. Every spelling of the root after the tree has been emptied through the server; a replacement through the server between two fetches. Compatibility forms of dots and slashes in path components. The root given as '.' with the home directory elsewhere. Block requests handed to the server in the same loop pass (handlers that use the loop's executor interleave there).",
     "C20": "Also: values that need quoting in lookup results (double quote, trailing backslash), an update that sets an explicit base, conjunctive lookup filters, "
            "a valid lt next to an invalid parameter in one update, re-registration without parameters. Simple registration with every outcome of the link fetch; updates with several parameters. Endpoint names that spell like name.sector of another registration; updates of a moved endpoint. Empty parameter and attribute values; an update that spells out the implicit base. A link with a repeated attribute.",
 }
